@@ -208,8 +208,10 @@ fn drive(out: &mut Out, rng: &mut Rng, s: &mut Session, thorough: bool, save_dir
                     let has_alias_pair = [("a", "assumptions"), ("v", "variables"), ("l", "limit"), ("s", "seed"), ("p", "path"), ("f", "fitness"), ("t", "total-features")].iter().any(|(x, y)| toks.iter().any(|t| t == x) && toks.iter().any(|t| t == y));
                     let (l1, l2) = (toks.join(" "), p.join(" "));
                     if !resource_heavy(&toks) {
-                        let r1 = guarded(|| s.d.handle_stream_msg(&l1)).unwrap_or_else(|e| format!("panic: {e}"));
-                        let r2 = guarded(|| s.d.handle_stream_msg(&l2)).unwrap_or_else(|e| format!("panic: {e}"));
+                        // on clones: the session itself must only see the lines the driver sees
+                        let (mut c1, mut c2) = (s.d.clone(), s.d.clone());
+                        let r1 = guarded(|| c1.handle_stream_msg(&l1)).unwrap_or_else(|e| format!("panic: {e}"));
+                        let r2 = guarded(|| c2.handle_stream_msg(&l2)).unwrap_or_else(|e| format!("panic: {e}"));
                         out.count("order_pairs", 1);
                         // both accepted, or both rejected; when accepted the answers agree
                         if !is_err(&r1) && !is_err(&r2) && r1 != r2 {
@@ -312,4 +314,18 @@ pub fn c13(a: &Args) {
         }
     }
     out.finish("nnf-loaded models (and, judged by the oracle only, a model loaded from a CNF with clause-update / undo-update / save-cnf lines): every line `command t1 t2` (quick: the two-token level thinned to a quarter) over 14 commands x 37 tokens (all parameter keywords in both spellings, numbers, ranges, 0, out-of-range and extreme numbers, malformed numbers, a path), random longer lines with 1..3 parameter groups (duplicates injected), printable junk, empty lines, the inputs of the repaired defects; each reply: no panic, result or E1..E6, rejected line leaves the model unchanged, count/sat answers of the well-formed subset vs truth table, parameter groups permuted; every reply compared with the Lean model of handle_stream_msg (exact text where literal, code otherwise) on one long-lived instance (cursor state included). Lines asking `random`/`t-wise` for more than 10^4 / t>3 samples are skipped (resource question, not modelled).");
+}
+
+/// debugging aid: `vharness streamprobe --out FILE`: first line `p cnf ..` + clauses until a line `---`, then stream lines
+pub fn probe(path: &str) {
+    crate::refcomp::install();
+    let text = std::fs::read_to_string(path).unwrap();
+    let (cnf, lines) = text.split_once("---\n").unwrap();
+    let dir = std::env::temp_dir().to_string_lossy().to_string();
+    let mut d = load_cnf_session(cnf, &dir);
+    for l in lines.lines() {
+        let r = guarded(|| d.handle_stream_msg(l)).unwrap_or_else(|e| format!("panic: {e}"));
+        let (n, cls) = crate::refcomp::parse_cnf(&saved_cnf(&mut d, &dir));
+        println!("{l:40} -> {r:?}   state {}   n={} count={}", fmt_state(n, &cls), d.number_of_variables, d.rc());
+    }
 }
